@@ -853,6 +853,29 @@ var kindHashCtor = kind{name: "hash-constructors", setup: func(seed uint64) any 
 		}
 		return hx(p.PublicKey().Bytes()) + x1.Text(16), nil
 	}},
+	// the shared curve object through the generic elliptic.Curve API, with scalars of
+	// every width the contract allows (shorter and LONGER than the field: reduced mod n)
+	// - seeded change C20-9-1 kept the reduction of an over-long scalar in a field of
+	// the curve object
+	{"curve-generic-api", false, func(obj any, g, i int, seed uint64) (string, error) {
+		widths := []int{1, 8, 31, 32, 33, 40, 48, 64, 71, 72}
+		w := widths[int(gen.Mix(seed, 502, uint64(g), uint64(i))%uint64(len(widths)))]
+		k := gen.Fill(gen.Mix(seed, 503, uint64(g), uint64(i)), w)
+		c := sm2ec.P256()
+		x1, y1 := c.ScalarBaseMult(k)
+		k2 := gen.Fill(gen.Mix(seed, 504, uint64(g), uint64(i)), widths[(i+g)%len(widths)])
+		x2, y2 := c.ScalarMult(x1, y1, k2)
+		x3, y3 := sm2.P256().ScalarMult(x1, y1, k2)
+		if x2.Cmp(x3) != 0 || y2.Cmp(y3) != 0 {
+			return "", fmt.Errorf("curve singletons disagree on ScalarMult with a %d-byte scalar", len(k2))
+		}
+		if !c.IsOnCurve(x2, y2) && (x2.Sign() != 0 || y2.Sign() != 0) {
+			return "", fmt.Errorf("ScalarMult with a %d-byte scalar returned a point off the curve", len(k2))
+		}
+		x4, y4 := c.Add(x1, y1, x2, y2)
+		x5, y5 := c.Double(x2, y2)
+		return x1.Text(16) + y1.Text(16) + x2.Text(16) + y2.Text(16) + x4.Text(16) + y4.Text(16) + x5.Text(16) + y5.Text(16), nil
+	}},
 }}
 
 // ---------------------------------------------------------------- cert pool
